@@ -207,7 +207,7 @@ impl Check for C02 {
     fn plan(&self, tier: Tier) -> Plan {
         let mut p = Plan::new(tier.pick(40_000, 4_000_000), tier.pick(30.0, 420.0));
         p.cpu_budget_s = 120.0;
-        p.mandatory = 2;
+        p.mandatory = 4;
         p
     }
     fn run_case(&self, tier: Tier, k: u64, rng: &mut Rng, out: &mut Out) {
@@ -236,6 +236,19 @@ impl Check for C02 {
                 })
                 .collect();
             out.count("scenarios_with_more_than_16_MiB_in_one_call", 1);
+        } else if k < 4 {
+            // more than a thousand messages arriving in ONE input call: 1,500 one-byte items pushed
+            // in one burst, everything available delivered at once
+            sc.mode = if k == 2 { Mode::PublishLive } else { Mode::Play };
+            sc.client_cfg.chunk_size = 4096;
+            sc.server_cfg.chunk_size = 4096;
+            sc.client_cfg.window_ack_size = 2_500_000;
+            sc.server_cfg.window_ack_size = 2_500_000;
+            sc.sched = 1;
+            sc.burst = 2000;
+            sc.accept_delay = 0;
+            sc.items = (0..1500u32).map(|i| if i % 2 == 0 { Item::Audio { data: vec![i as u8], ts: 20 * i, drop: false } } else { Item::Video { data: vec![i as u8], ts: 20 * i, drop: false } }).collect();
+            out.count("scenarios_with_more_than_1000_messages_in_one_call", 1);
         }
         out.eval(1);
         let o = sessdrv::run_scenario(&sc, rng, false);
@@ -279,7 +292,7 @@ impl Check for C02 {
         out.sample(|| json!({"scenario": sessdrv::scenario_json(&sc), "steps": o.steps, "bytes_c2s": o.bytes_c2s, "bytes_s2c": o.bytes_s2c, "completed": o.completed}));
     }
     fn rule(&self) -> String {
-        "cases 0 and 1: 280 items of 64 KiB pushed in one burst and delivered in one input call (more than 16 MiB at once), publish and play. Otherwise one scripted scenario per case: connect(app) -> publish(key, live|record|append) or play(key) -> 0-14 (thorough: up to 60) items {metadata | audio | video} with payload sizes {0, 1, chunk-1, chunk, chunk+1, 64 KiB, 200 KiB, random} and arbitrary u32 timestamps (rising, falling, wrapping), droppable flags set but nothing dropped -> stop. Client and server chunk sizes from {1,2,3,127,128,129,4096,65536,2^24-1,2^24,2^31-1, uniform}; window sizes from {1,2,100,5000,2.5M,2^30,2^31,2^32-1}; random peer bandwidth, buffer length, onBWDone on/off, tcUrl. Scheduler styles: byte-by-byte, everything available, random pieces, mixed, and two starvation patterns; server application accepts after 0-40 steps; sender bursts of 1-100 items. distinct = (mode, chunk-size class pair, window class pair, item size classes, scheduler).".to_string()
+        "cases 0 and 1: 280 items of 64 KiB pushed in one burst and delivered in one input call (more than 16 MiB at once), publish and play; cases 2 and 3: 1,500 one-byte items in one burst and one input call. Otherwise one scripted scenario per case: connect(app) -> publish(key, live|record|append) or play(key) -> 0-14 (thorough: up to 60) items {metadata | audio | video} with payload sizes {0, 1, chunk-1, chunk, chunk+1, 64 KiB, 200 KiB, random} and arbitrary u32 timestamps (rising, falling, wrapping), droppable flags set but nothing dropped -> stop. Client and server chunk sizes from {1,2,3,127,128,129,4096,65536,2^24-1,2^24,2^31-1, uniform}; window sizes from {1,2,100,5000,2.5M,2^30,2^31,2^32-1}; random peer bandwidth, buffer length, onBWDone on/off, tcUrl. Scheduler styles: byte-by-byte, everything available, random pieces, mixed, and two starvation patterns; server application accepts after 0-40 steps; sender bursts of 1-100 items. distinct = (mode, chunk-size class pair, window class pair, item size classes, scheduler).".to_string()
     }
     fn assumptions(&self) -> Vec<String> {
         vec![
@@ -293,6 +306,7 @@ impl Check for C02 {
         vec![
             "scenarios_completed".into(),
             "scenarios_with_more_than_16_MiB_in_one_call".into(),
+            "scenarios_with_more_than_1000_messages_in_one_call".into(),
             "mode_Play".into(),
             "mode_PublishLive".into(),
             "mode_PublishRecord".into(),
